@@ -264,6 +264,18 @@ def stale_observers(name, factory):
     return sorted(stale), names
 
 
+def _settable(o):
+    """public attributes of the object's class that have a setter (alignment end points are the caller's by documented design)"""
+    out = []
+    for k in dir(type(o)):
+        if k.startswith("_") or k in ("target", "source"):
+            continue
+        a = getattr(type(o), k, None)
+        if isinstance(a, property) and a.fset is not None:
+            out.append(k)
+    return out
+
+
 def record(name, family, factory):
     o = factory()
     s0 = state(o)
@@ -305,6 +317,31 @@ def record(name, family, factory):
         if d:
             leaks.add("mutator:" + mname)
             ev["detail"].append("mutator %s on the copy changed the original: %s" % (mname, d))
+    # public SETTERS on a fresh pair: the copy is handed the original's own value of every settable public attribute (the natural
+    # way to bring two models in line); whatever is then written into the copy's buffers must stay in the copy
+    for pname in _settable(o):
+        o2 = factory()
+        c2 = o2.copy()
+        try:
+            setattr(c2, pname, getattr(o2, pname))
+        except Exception:
+            continue
+        ref = state(o2)
+        hit = None
+        for path, buf in buffers(c2):
+            if buf.size == 0 or not buf.flags.writeable:
+                continue
+            undo = _poke(buf)
+            if undo is None:
+                continue
+            d = same(ref, state(o2))
+            undo()
+            if d:
+                hit = (path, d)
+                break
+        if hit:
+            leaks.add("setter:" + pname)
+            ev["detail"].append("after copy.%s = original.%s a write into the copy's %s is visible at the original's %s" % (pname, pname, hit[0], hit[1]))
     # memoised answers must not travel with a copy (reported as leaks of kind "memo:")
     try:
         st, names = stale_observers(name, factory)
